@@ -62,3 +62,16 @@ spec("C02", "class round trip", [TB.rule_table_cvar], "tmp")
 spec("C03", "function round trip", [TB.rule_table_kind], "tmp")
 spec("C04", "argparse round trip", [TB.rule_table_argparse], "tmp")
 spec("C17", "defaults through prose", [TB.rule_table_announce], "tmp")
+
+from sa.rules import order as O
+
+spec("C07", "parse faithful", [O.rule_order, O.rule_sigcover, O.rule_allpair], "tmp")
+
+from sa.rules import null as N
+
+spec("C08", "fixed point", [N.rule_null1, N.rule_null2], "tmp")
+
+from sa.rules import cli2 as C2
+
+spec("C20", "rejected invocations", [C2.rule_cli2], "tmp")
+SPECS["C09"]["rules"].append(F.rule_file2c)
